@@ -261,6 +261,41 @@ def rule_q1_clear(ctx, facts):
              "delta starts at 0 before the walk and only ever decrements by one (%d sites)" % len(decs) if ok_defs and decs and not resets else
              ("the removal tally is reset to 0 inside the walk at %s: entries already removed (e.g. before following a forwarding marker) are never "
               "subtracted from the count" % cl.span_at(resets[0]) if resets else "delta is updated by something other than `-= 1`"))
+    # one decrement per ENTRY: at every nesting level of the walk, the sites that decrement the tally pair with the sites that retire a
+    # value (each entry has exactly one value; containers -- the TreeBin of a tree bin -- have none)
+    inner_loops = []
+    for be in back_edges(cl):
+        L = loop_blocks(cl, be)
+        if not any(c.b in L for c in cl.calls if c in [r.call for r in regions(cl)]):
+            inner_loops.append(frozenset(L))
+
+    def level(blk):
+        ins = [L for L in inner_loops if blk in L]
+        return min(ins, key=len) if ins else "outer"
+    vret = {}
+    for c in cl.calls:
+        k = an.is_retire(c)
+        if k is None or cl.is_cleanup(c.b) or k >= len(c.args) or op_root(c.args[k]) is None:
+            continue
+        targs = cl.ty(op_root(c.args[k])).get("args", [""])
+        if targs and targs[-1] == "V":
+            vret.setdefault(level(c.b), []).append(c)
+    dlev = {}
+    for pt in decs:
+        dlev.setdefault(level(pt[0]), []).append(pt)
+    # per bin (outside the walk loops): an entry handled there has its value retired there -- the list head; the TreeBin container has
+    # no value and is not an entry.  Inside a walk loop: exactly one decrement site per visited node.
+    nd, nv = len(dlev.get("outer", [])), len(vret.get("outer", []))
+    where = cl.span_at(dlev["outer"][-1]) if dlev.get("outer") else (vret["outer"][0].span if vret.get("outer") else cl.span)
+    ctx.inst("Q1", cl, "one decrement per entry (per bin)", where, nd == nv,
+             "%d decrement site(s) outside the walk loops pair with %d value retirement(s) there" % (nd, nv) if nd == nv else
+             "%d site(s) outside the walk loops decrement the removal tally but %d value(s) are retired there: something that is not an entry "
+             "(e.g. the TreeBin container) is counted, or an entry is not -- len() stays wrong once the map is used again" % (nd, nv))
+    for lv, pts in dlev.items():
+        if lv == "outer":
+            continue
+        ctx.inst("Q1", cl, "one decrement per entry (walk loop)", cl.span_at(pts[-1]), len(pts) == 1,
+                 "one decrement site per visited node" if len(pts) == 1 else "%d sites decrement the tally in one iteration of a node walk" % len(pts))
     # every cycle of a node-walking inner loop decrements; the list-arm head is counted once
     n_loops = 0
     for be in back_edges(cl):
